@@ -126,8 +126,9 @@ ProofOK(o) ==
   ELSE \E j \in 0..total - 1 : Verify(j, total, LeafHash(o.bytes), o.aunts, root)
 
 Result(o) ==
-  IF CheckUpper /\ o.idx >= total THEN "badindex"       \* ErrPartSetUnexpectedIndex
-  ELSE IF o.idx < 0 \/ o.idx >= total THEN "panic"       \* ps.parts[part.Index]: index out of range
+  IF o.idx < 0 THEN "badindex"                           \* lower bound (ErrPartSetUnexpectedIndex)
+  ELSE IF CheckUpper /\ o.idx >= total THEN "badindex"   \* upper bound (ErrPartSetUnexpectedIndex)
+  ELSE IF o.idx >= total THEN "panic"                    \* ps.parts[part.Index]: index out of range (CheckUpper = FALSE only)
   ELSE IF parts[o.idx + 1] # Nil THEN "dup"              \* (false, nil)
   ELSE IF CheckProof /\ ~ProofOK(o) THEN "badproof"      \* ErrPartSetInvalidProof
   ELSE "added"
